@@ -5,6 +5,8 @@ import re
 
 from ..core import (AnalysisError, body_nodes, call_name, docstring, dotted, key_text, kwarg,
                     names_in, params, parent, stmts_of, unparse)
+from ..normal import inline_temps
+from ..pattern import find, guards_of, pmatch
 from ..flow import check_errflow
 from ..linform import NotPoly, Poly, eval_poly
 
@@ -205,14 +207,19 @@ def check_truncate(prog, rep):
                     if not pv or 'np.argsort(' not in unparse(pv[0].value) or \
                             '-' in unparse(pv[0].value) or '::-1' in unparse(pv[0].value):
                         problems.append('piv must be the ascending argsort of the spectrum')
-        nd = [s for s in stmts_of(f) if isinstance(s, ast.Assign) and
-              unparse(s.targets[0]) == unparse(norm_n)]
-        if not nd or ('S[%s]' % mask_n) not in unparse(nd[0].value) or \
-                'logical_not' in unparse(nd[0].value) or '~' in unparse(nd[0].value):
+        # norm and error on the normal form (named intermediate values do not matter)
+        nf = inline_temps(f)
+        nret = [r for r in nf.body if isinstance(r, ast.Return)]
+        nv = nret[-1].value if nret and isinstance(nret[-1].value, ast.Tuple) and \
+            len(nret[-1].value.elts) == 3 else None
+        ntxt = unparse(nv.elts[1]) if nv is not None else ''
+        if ('S[%s]' % mask_n) not in ntxt or 'logical_not' in ntxt or '~' in ntxt or \
+                not ('norm' in ntxt or 'sqrt' in ntxt):
             problems.append('norm_new must be the norm of the kept values S[%s]' % mask_n)
-        e = unparse(err_e)
-        if not ('from_S' in e and ('S[np.logical_not(%s)]' % mask_n in e or
-                                   'S[~%s]' % mask_n in e)):
+        ee = nv.elts[2] if nv is not None else err_e
+        if not (pmatch('TruncationError.from_S(S[np.logical_not(%s)])' % mask_n, ee) or
+                pmatch('TruncationError.from_S(S[~%s])' % mask_n, ee) or
+                pmatch('TruncationError.from_S(S[%s == False])' % mask_n, ee)):
             problems.append('the error must be TruncationError.from_S of the discarded values '
                             'S[~%s] of the same mask' % mask_n)
     else:
